@@ -226,6 +226,49 @@ def r34(ctx, repo, upd):
            label="no return by-passes inversion")
 
 
+def r38(ctx, repo):
+    """`PolygonFilter` defines ``__eq__`` by value (axes, points,
+    inversion), so ``instances.remove(p)`` / ``.index(p)`` / ``p in
+    instances`` act on the *first filter that looks like* p, not on p: the
+    registry must be searched by identity or by unique id.  (Removing the
+    wrong filter leaves the identifier of another one registered – or
+    raises when an earlier polygon has another number of vertices.)"""
+    cls = repo.cls(POLY, "PolygonFilter")
+    by_value = any(isinstance(f, ast.FunctionDef) and f.name == "__eq__"
+                   for f in cls.body)
+    tree = repo.tree(POLY)
+
+    def is_registry(e):
+        return isinstance(e, ast.Attribute) and e.attr == "instances"
+    sites = []
+    nuse = 0
+    for n in ast.walk(tree):
+        if is_registry(n):
+            nuse += 1
+        if isinstance(n, ast.Call) and isinstance(n.func, ast.Attribute) \
+                and n.func.attr in ("remove", "index", "count") \
+                and is_registry(n.func.value):
+            sites.append(n)
+        if isinstance(n, ast.Compare) and any(
+                isinstance(o, (ast.In, ast.NotIn)) for o in n.ops) and any(
+                is_registry(c) for c in n.comparators):
+            sites.append(n)
+    if nuse < 3:
+        raise AnalysisError("PolygonFilter.instances: registry uses lost")
+    bad = sites if by_value else []
+    for b in bad:
+        ctx.ob("R3.8", False, f"`{short(b, 60)}` searches the registry with "
+               "`==`, which PolygonFilter defines by value: the first "
+               "filter with equal axes, points and inversion is taken "
+               "instead of the one meant (and a polygon with another "
+               "number of vertices in front of it raises)", node=b,
+               label=f"registry searched by identity {short(b, 40)}")
+    ctx.ob("R3.8", not bad, f"{nuse} uses of the polygon registry: none "
+           "searches it by value equality" if not bad else
+           f"{len(bad)} registry operation(s) by value equality",
+           node=cls, label="registry searched by identity or id")
+
+
 def r36(ctx, repo):
     rs = repo.func(FILT, "Filter.reset")
     rs = canon(repo, FILT, rs)
@@ -771,10 +814,19 @@ def run(ctx):
     r3_eval(ctx, repo)
     r34(ctx, repo, upd)
     r36(ctx, repo)
+    ctx.rule("R3.8", "the polygon filter registry is searched by identity "
+             "or unique id, never by value equality", minimum=1)
+    r38(ctx, repo)
     r37(ctx, repo)
 
 
 MUTANTS = [
+    ("registry removal by value equality (F03d returns)", POLY,
+     ("        PolygonFilter.instances[:] = [p for p in PolygonFilter.instances\n"
+      "                                      if p.unique_id != unique_id]\n",
+      "        for p in PolygonFilter.instances:\n"
+      "            if p.unique_id == unique_id:\n"
+      "                PolygonFilter.instances.remove(p)\n"), "R3.8"),
     ("features of a refused application count as known (F03c returns)", FILT,
      ('features_old = list(getattr(self, "_features_filtered", []))',
       'features_old = list(getattr(self, "features", []))'), "R3."),
